@@ -42,6 +42,7 @@ def errStr : Err → String
   | .invalidString .unexpectedEnd => "InvalidString UnexpectedEnd"
   | .invalidString .integerOverflow => "InvalidString Integer Overflow"
   | .invalidString (.huffman e) => "InvalidString Huffman " ++ H3.Drv.C15.huffErr e
+  | .invalidString .bufSize => "InvalidString BufSize"
   | .invalidStaticIndex i => s!"InvalidStaticIndex {i}"
   | .unknownPrefix p => s!"UnknownPrefix {p}"
   | .missingRefs n => s!"MissingRefs {n}"
